@@ -136,6 +136,9 @@ func insHistory(id string, rng *rand.Rand, lt *layoutTables, actions []string) M
 		if strings.HasPrefix(act, "call:") {
 			a = "call"
 		}
+		if strings.HasPrefix(act, "twice:") {
+			a = "twice"
+		}
 		switch a {
 		case "mutate_caller":
 			// the caller's own slice, its elements and their door-name slices
@@ -267,6 +270,53 @@ func insHistory(id string, rng *rand.Rand, lt *layoutTables, actions []string) M
 			}
 			u.GetCards(4242)
 			ev = append(ev, M{"ev": "scribble"})
+		case "twice":
+			// the same call answered twice by byte-identical replies, the first result edited by the caller in between:
+			// a result is a function of its reply - results share no storage with each other or with the library
+			op := act[6:]
+			l, ok := lt.Rsp[op]
+			if !ok {
+				break
+			}
+			cs := g.call(op, target)
+			var reply []byte
+			d.script = func(method string, req []byte) [][]byte {
+				if reply == nil {
+					reply = l.message(rng, 0x17, req[4:8], "valid", nil)
+					switch op {
+					case "GetCardByID":
+						copy(reply[8:12], req[8:12])
+					case "GetTimeProfile":
+						reply[8] = req[8]
+					}
+					if allZero := rng.Intn(2) == 0; allZero { // (the degenerate values: all segments 00:00, no doors, ...)
+						for _, f := range l.Fields {
+							if f.Kind == "hhmm" || f.Kind == "hhmmp" || f.Kind == "u8" || f.Kind == "bool" {
+								if f.Off >= 9 {
+									for i := 0; i < width(f.Kind); i++ {
+										reply[f.Off+i] = 0
+									}
+								}
+							}
+						}
+					}
+				}
+				return [][]byte{append([]byte{}, reply...)}
+			}
+			var v1, v2 any
+			var e1, e2 error
+			first, second := M{"t": "panic"}, M{"t": "panic"}
+			d.reset()
+			if pn, _ := guard(func() { v1, e1 = cs.call(u) }); !pn {
+				first = projRet(v1, e1)
+				guard(func() { mutateValue(v1, rng) })
+			}
+			d.reset()
+			if pn, _ := guard(func() { v2, e2 = cs.call(u) }); !pn {
+				second = projRet(v2, e2)
+			}
+			d.script = nil
+			ev = append(ev, M{"ev": "same_reply", "op": op, "first": first, "second": second})
 		case "mutate_result":
 			if len(held) > 0 {
 				h := held[rng.Intn(len(held))]
@@ -370,6 +420,9 @@ func runC17(o *opts) (*summary, error) {
 	for r := 0; r < map[bool]int{false: 2, true: 10}[thorough]; r++ {
 		for _, op := range allOps {
 			hists = append(hists, insHistory(fmt.Sprintf("S%d-%s", r, op), rng, lt, []string{"call:" + op, "call:GetCards", "call:" + op, "mutate_returned", "call:GetStatus", "recheck"}))
+		}
+		for k, op := range []string{"GetTimeProfile", "GetCardByID", "GetCardByIndex", "GetStatus", "GetDevice", "GetTimeProfile", "GetTimeProfile", "GetStatus"} {
+			hists = append(hists, insHistory(fmt.Sprintf("T%d-%d-%s", r, k, op), rng, lt, []string{"twice:" + op, "twice:" + op, "recheck"}))
 		}
 	}
 	nr := 300
